@@ -362,3 +362,25 @@ def install_ktables(tabs, weights, wn, Tg, Pg, mode='linear', dirname='ktables')
     KTableCache().set_ktable_path(d)
     KTableCache().clear_cache()
     return d
+
+
+class debug_logging(object):
+    """Inside the block the code under test runs at log level DEBUG, as under `taurex -g` (what it writes goes to a
+    null handler); afterwards the process is quiet again."""
+
+    def __enter__(self):
+        import logging
+        from taurex.log.logger import root_logger
+        self._handlers = list(root_logger.handlers)
+        root_logger.handlers = [logging.NullHandler()]
+        logging.disable(logging.NOTSET)
+        root_logger.setLevel(logging.DEBUG)
+        return self
+
+    def __exit__(self, *exc):
+        import logging
+        from taurex.log.logger import root_logger
+        root_logger.setLevel(logging.ERROR)
+        root_logger.handlers = self._handlers
+        logging.disable(logging.CRITICAL)
+        return False
